@@ -69,8 +69,14 @@ def state_of(data):
         u.find_class = lambda m, n: (m, n)
     except Exception:
         pass
-    u.load()
-    return u.load()
+    try:
+        u.load()
+        return u.load()
+    except Exception as ex:
+        # the bytes come from the code under test (a stored record): not being able to read them back is a
+        # finding about that code, not a failure of the machinery
+        from zverif.api import fail
+        fail('a record handed out by the storage cannot be unpickled', type(ex).__name__, repr(bytes(data)[:80]))
 
 
 class PNewArgs(persistent.Persistent):
